@@ -96,6 +96,9 @@ def accepts_dimension(cls):
 
 
 # ------------------------------------------------------------------ abstract evaluation
+ALL_CLASSES = {}      # class name -> ClassInfo of the analysed tree (filled by run / bnb)
+
+
 class EvalInterp(Interp):
     def __init__(self, cls, selfo, funcs):
         super().__init__(funcs)
@@ -119,13 +122,33 @@ class EvalInterp(Interp):
                 for b in k.bases:
                     if b in k.module.classes:
                         todo.append(k.module.classes[b])
+                    elif b in ALL_CLASSES:
+                        todo.append(ALL_CLASSES[b])
         return super().e_Attribute(n, env)
+
+    def _method(self, name):
+        if name in self.cls.methods:
+            return self.cls.methods[name]
+        # a method inherited from a base class of the package (the common benchmark base included)
+        todo, seen = [self.cls], set()
+        while todo:
+            k = todo.pop(0)
+            if id(k) in seen:
+                continue
+            seen.add(id(k))
+            if name in k.methods and name not in ("evaluate", "set", "__init__"):
+                return k.methods[name]
+            for b in k.bases:
+                bk = k.module.classes.get(b) or ALL_CLASSES.get(b)
+                if bk is not None:
+                    todo.append(bk)
+        return None
 
     def e_Call(self, n, env):
         if isinstance(n.func, ast.Attribute) and isinstance(n.func.value, ast.Name) and env.get(n.func.value.id) is self.selfo \
-                and n.func.attr in self.cls.methods:
+                and self._method(n.func.attr) is not None:
             args = [self.ev(a, env) for a in n.args]
-            meth = self.cls.methods[n.func.attr]
+            meth = self._method(n.func.attr)
             static = any(isinstance(d, ast.Name) and d.id == "staticmethod" for d in meth.decorator_list)
             return self.call_function(meth, args, {}, self_obj=None if static else self.selfo)
         return super().e_Call(n, env)
@@ -165,6 +188,9 @@ def bnb(task):
     sub = task[8] if len(task) > 8 else None
     os.environ["VERIF_REPO"] = root
     repo = Repo(root)
+    ALL_CLASSES.clear()
+    ALL_CLASSES.update(repo.classes)
+    benchmark_classes(repo)          # merges inherited evaluate()/set() into the class tables, as in the parent process
     cls = repo.cls(cname, modname)
     cfg = fold_config(cls, n if accepts_dimension(cls) else None)
     funcs = module_env(cls.module)
@@ -258,8 +284,21 @@ def bnb(task):
         key = iv.lo if sense > 0 else -iv.hi
         heapq.heappush(heap, (key, cnt, box, iv))
         cnt += 1
+    # the corners of the box first: points exactly ON the bounds are where a guard written with the wrong strictness, or a
+    # formula that degenerates at 0, shows - and no interior sub-box ever contains only such points
+    if len(box0) <= 5:
+        import itertools as _it
+        for corner in _it.product(*[(b.lo, b.hi) if not b.is_point() else (b.lo,) for b in box0]):
+            try:
+                fc = natural([I(c_) for c_ in corner])
+            except (DomainError, Unsupported):
+                continue
+            if (sense > 0 and fc.hi < thr) or (sense < 0 and fc.lo > thr):
+                res["violation"] = {"box": [[c_, c_] for c_ in corner], "enclosure": [fc.lo, fc.hi], "threshold": thr}
+                break
     try:
-        push(box0)
+        if res["violation"] is None:
+            push(box0)
         worst = None
         while heap:
             if res["boxes"] >= max_boxes or time.time() - t0 > max_seconds or res["violation"] is not None:
@@ -432,8 +471,17 @@ def run(ctx):
     ctx.assume("R5 is decided at n=2 (quick; plus every dimension up to 5 with its own documented value) / n in {1,2,3,5} (thorough) for dimension-generic functions and at the fixed dimension otherwise; higher dimensions are not decided")
     repo = ctx.repo
     thorough = ctx.tier == "thorough"
+    ALL_CLASSES.clear()
+    ALL_CLASSES.update(repo.classes)
     classes = benchmark_classes(repo)
     ctx.count("benchmark_classes", len(classes))
+    # the interpreter runs every helper the evaluate() methods call (or gives up with "outside the fragment"): a verdict is
+    # never taken behind a helper's back
+    for mname_ in ("benchmark_functions", "benchmark_robust"):
+        m_ = repo.module(mname_)
+        ctx.examined.update(m_.functions)
+        for k_ in m_.classes.values():
+            ctx.examined.update(k_.methods)
     if os.environ.get("VERIF_C15_ONLY"):          # development aid: analyse the named classes only (never set by a registered command)
         only = set(os.environ["VERIF_C15_ONLY"].split(","))
         classes = [mc for mc in classes if mc[1].name in only] + [mc for mc in classes if mc[1].name not in only][:0]
